@@ -1,9 +1,11 @@
 #!/usr/bin/env python3
 """Regenerates /verif/MANIFEST.json from py/props.py (claimed) and py/notclaimed.py."""
 import json, sys
-sys.path.insert(0, '/verif/py')
+import os
+HERE=os.path.dirname(os.path.dirname(os.path.abspath(__file__)))
+sys.path.insert(0, HERE+'/py')
 import props
-allids = [json.loads(l)['id'] for l in open('/verif/properties.jsonl')]
+allids = [json.loads(l)['id'] for l in open(HERE+'/properties.jsonl')]
 checks = []
 for pid in allids:
     if pid not in props.PROPS:
@@ -33,5 +35,5 @@ man = dict(
     checks=checks,
     not_applicable=na,
     notes='See DESIGN.md. Properties listed under not_applicable with reason "not yet built" are unclaimed, not inapplicable.')
-json.dump(man, open('/verif/MANIFEST.json', 'w'), indent=1)
+json.dump(man, open(HERE+'/MANIFEST.json', 'w'), indent=1)
 print('claimed', len(checks), 'unclaimed', len(na))
